@@ -25,6 +25,10 @@ PLANS = {
              "params": {"kinds": ["ngram"], "max_wide": 1, "kernels": ["flat"], "masks": ["none"], "no_em": True}},
             {"name": "L2-jit-real-big", "layer": "L2", "mode": "jit", "variant": "realbig", "runs": 54, "workers": 3, "budget_s": 170,
              "params": {"kinds": ["token", "multiset", "timed"], "max_wide": 2, "kernels": ["flat"], "masks": ["none"], "big": True}},
+            {"name": "L2-jit-real-wide-vocab", "layer": "L2", "mode": "jit", "variant": "widevocab", "runs": 6, "workers": 1, "budget_s": 170,
+             "no_det_sample": True,
+             "params": {"kinds": ["token", "timed"], "max_wide": 2, "kernels": ["flat"], "masks": ["none"], "big": True, "wide_vocab": True,
+                        "no_em": True}},
         ],
         "thorough": [
             {"name": "L1-interp", "layer": "L1", "mode": "interp", "runs": 300000, "workers": 2, "budget_s": 2400},
@@ -45,6 +49,10 @@ PLANS = {
              "params": {"kinds": ["ngram"], "max_wide": 2, "kernels": ["flat"], "masks": ["none"]}},
             {"name": "L2-jit-real-big", "layer": "L2", "mode": "jit", "variant": "realbig", "runs": 1600, "workers": 3, "budget_s": 2600,
              "params": {"kinds": ["token", "multiset", "timed"], "max_wide": 2, "kernels": ["flat"], "masks": ["none"], "big": True}},
+            {"name": "L2-jit-real-wide-vocab", "layer": "L2", "mode": "jit", "variant": "widevocab", "runs": 150, "workers": 1, "budget_s": 2600,
+             "no_det_sample": True,
+             "params": {"kinds": ["token", "timed"], "max_wide": 2, "kernels": ["flat"], "masks": ["none"], "big": True, "wide_vocab": True,
+                        "no_em": True}},
         ],
     },
 }
